@@ -391,15 +391,26 @@ class Weaver:
 
     # ---------------------------------------------------------------- output
     def emit(self, preamble_files):
+        """one file; every module has its own verus! block (derive(Structural) inside a module nested
+        in a verus! block crashes this Verus version)"""
         out = []
         out.append('// GENERATED by /verif/tool/weave.py from %s -- do not edit\n' % self.repo)
-        out.append('#![allow(unused_imports, unused_variables, dead_code, unused_mut, unused_assignments, non_snake_case, unreachable_code, unreachable_patterns)]\n')
+        out.append('#![allow(unused_imports, unused_variables, dead_code, unused_mut, unused_assignments, non_snake_case, unreachable_code, unreachable_patterns, unused_parens, unused_braces)]\n')
         out.append('use vstd::prelude::*;\n')
+        root = [pf for pf in preamble_files if ':' not in os.path.basename(pf)]
+        mods = [pf for pf in preamble_files if ':' in os.path.basename(pf)]
         out.append('verus! {\n')
-        for pf in preamble_files:
+        for pf in root:
             out.append('// @PREAMBLE %s\n' % os.path.basename(pf))
             out.append(open(pf, encoding='utf-8').read())
             out.append('\n')
+        out.append('} // verus!\n')
+        for pf in mods:
+            d, b = os.path.split(pf)
+            name, fname = b.split(':', 1)
+            out.append('// @PREAMBLE %s\npub mod %s {\nuse vstd::prelude::*;\nverus! {\n' % (fname, name))
+            out.append(open(os.path.join(d, fname), encoding='utf-8').read())
+            out.append('\n} // verus!\n} // mod %s\n' % name)
         # module tree
         tree = {}
         for m in self.modules:
@@ -409,18 +420,21 @@ class Weaver:
                 node = node.setdefault(p, {})
             node.setdefault('__chunks__', []).extend(m['chunks'])
 
-        def emit_node(name, node, indent):
+        def emit_node(name, node):
             out.append('pub mod %s {\n' % name)
             out.append('use vstd::prelude::*;\n')
-            for ch in node.get('__chunks__', []):
-                out.append(ch)
+            if node.get('__chunks__'):
+                out.append('verus! {\n')
+                for ch in node['__chunks__']:
+                    out.append(ch)
+                out.append('} // verus!\n')
             for k, v in node.items():
                 if k != '__chunks__':
-                    emit_node(k, v, indent + 1)
+                    emit_node(k, v)
             out.append('} // mod %s\n' % name)
         for k, v in tree.items():
-            emit_node(k, v, 0)
-        out.append('} // verus!\nfn main() {}\n')
+            emit_node(k, v)
+        out.append('fn main() {}\n')
         return ''.join(out)
 
 
